@@ -1,5 +1,5 @@
 """Property id -> check function(tier) -> exit code; replay kinds."""
-from . import runlevel, c06, c10, c16, c12, logmachine, c14, c07, c19, containers, c20, c17
+from . import runlevel, c06, c10, c16, c12, logmachine, c14, c07, c19, containers, c20, c17, c18
 
 CHECKS = {}
 for _p in runlevel.CFG:
@@ -13,5 +13,6 @@ CHECKS["C07"] = c07.main
 CHECKS["C19"] = c19.main
 CHECKS["C20"] = c20.main
 CHECKS["C17"] = c17.main
+CHECKS["C18"] = c18.main
 
-REPLAYERS = {"c06panel": c06.replay_panel, "c10case": c10.replay, "c16case": c16.replay, "loghistory": logmachine.replay, "c14gen": c14.replay_gen, "c07case": c07.replay, "container": containers.replay, "c20seq": c20.replay}
+REPLAYERS = {"c06panel": c06.replay_panel, "c10case": c10.replay, "c16case": c16.replay, "loghistory": logmachine.replay, "c14gen": c14.replay_gen, "c07case": c07.replay, "container": containers.replay, "c20seq": c20.replay, "c18mask": c18.replay_mask}
